@@ -361,16 +361,37 @@ static size_t arena_cap ;
 static const char *KINDS [] = { "null", "a5", "zero", "one", "nl" } ;
 enum { K_NULL, K_A5, K_ZERO, K_ONE, K_NL, K_COUNT } ;
 
+/* word fills `w<8 hex digits>` (round 8): the whole block is the little-endian 32-bit word repeated, so that EVERY 4-byte aligned
+** size / count field of a command's struct (cart tag_text_size, bext coding_history_size, cue_count, loop_count ...) holds that
+** value: 7fffffff, 80000000, ffffffff, 2^32 - offsetof (variable part) +- 1 ... -- the values at which 32-bit guard arithmetic wraps.
+** kind number = K_COUNT + index into word_vals */
+#define MAX_WORDS 48
+static unsigned word_vals [MAX_WORDS] ; static int word_n ;
+
 static int
 kind_of (const char *s)
 {	int k ;
 	for (k = 0 ; k < K_COUNT ; k++) if (!strcmp (s, KINDS [k])) return k ;
+	if (s [0] == 'w' && strlen (s) == 9 && strspn (s + 1, "0123456789abcdef") == 8)
+	{	unsigned v = (unsigned) strtoul (s + 1, NULL, 16) ;
+		for (k = 0 ; k < word_n ; k++) if (word_vals [k] == v) return K_COUNT + k ;
+		if (word_n < MAX_WORDS) { word_vals [word_n] = v ; return K_COUNT + word_n ++ ; }
+		}
 	return -1 ;
+}
+
+static const char *
+kind_name (int kind)
+{	static char buf [16] ;
+	if (kind < K_COUNT) return KINDS [kind] ;
+	snprintf (buf, sizeof (buf), "w%08x", word_vals [kind - K_COUNT]) ;
+	return buf ;
 }
 
 static unsigned char
 fill_byte (int kind, size_t i, size_t size)
-{	switch (kind)
+{	if (kind >= K_COUNT) return (unsigned char) (word_vals [kind - K_COUNT] >> (8 * (i & 3))) ;
+	switch (kind)
 	{	case K_A5 : return 0xA5 ;
 		case K_ZERO : return 0 ;
 		case K_ONE : return (i & 3) == 0 ? 1 : 0 ;
@@ -420,7 +441,7 @@ run_point (const COMBO *c, int cmd, int size, int kind)
 {	SNDFILE *sf ; DIGEST d0, d1, d2 ; unsigned char *blk ; int ret, err ;
 	size_t bsize = kind == K_NULL ? 0 : (size_t) size ;
 
-	printf ("p cmd=%x size=%d data=%s |", (unsigned) cmd, size, KINDS [kind]) ;
+	printf ("p cmd=%x size=%d data=%s |", (unsigned) cmd, size, kind_name (kind)) ;
 	alarm (10) ;
 	sf = build_handle (c) ;
 	if (sf == NULL && c->state != 0)
@@ -565,7 +586,7 @@ grid_run (const COMBO *c, FILE *in)
 	fflush (stdout) ;
 	while (getline (&line, &cap, in) > 0)
 	{	POINT *pts = NULL ; size_t npts = 0, k ; long start = 0 ;
-		int cmd, maxsize, s, kd, nk = 0, kinds [K_COUNT] ;
+		int cmd, maxsize, s, kd, nk = 0, kinds [K_COUNT + MAX_WORDS] ;
 		char *tok = strtok (line, " \t\r\n") ;
 		if (tok == NULL || tok [0] == '#') continue ;
 		cmd = (int) strtoll (tok, NULL, 16) ;
@@ -576,7 +597,7 @@ grid_run (const COMBO *c, FILE *in)
 		{	char *q = tok ;
 			while (q && *q)
 			{	char *e = strchr (q, ',') ; if (e) *e = 0 ;
-				if (kind_of (q) >= 0) kinds [nk ++] = kind_of (q) ;
+				if (kind_of (q) >= 0 && nk < K_COUNT + MAX_WORDS) kinds [nk ++] = kind_of (q) ;
 				q = e ? e + 1 : NULL ;
 				}
 			}
